@@ -69,16 +69,35 @@ Definition unit_env (rb : json) : issue_env :=
 
 Definition disc_json (d : disc) : json := JArr [JStr (d_str d); JStr (d_digest d); jopt (d_key d); d_val d].
 
-(* build_disclosure applied to the paths one after the other on the same working copy, as encode() does; the
-   outcome of every step is compared, the fold stops at the first error *)
-Fixpoint unit_build_fold (E : issue_env) (claims : json) (paths : list string) (salts : list json) : list json :=
-  match paths with
-  | [] => []
-  | p :: ps =>
+(* the entries of every _sd array in sorted order: at function level WHERE in its list a new digest lands is the
+   business of the random choice (and of how the code applies it: insert at a drawn index, push and swap, ...); which
+   list it lands in, and everything else of the working copy, is compared exactly *)
+Fixpoint sort_sd (j : json) : json :=
+  match j with
+  | JObj kvs => JObj (map (fun kv : string * json => let '(k, v) := kv in
+                             if String.eqb k "_sd" then (k, match v with JArr xs => JArr (sort_json xs) | _ => v end)
+                             else (k, sort_sd v)) kvs)
+  | JArr xs => JArr (map sort_sd xs)
+  | _ => j end.
+
+(* build_disclosure applied to the paths one after the other on the same working copy, as encode() does. Every step of
+   the model starts from the working copy the implementation produced in the step before (so that values hashed later
+   contain the digest lists in the order they really have) and must produce the same disclosure and, up to the order
+   inside _sd lists, the same working copy; the fold stops at the first error, which both sides must reach together *)
+Fixpoint unit_build_agrees (E : issue_env) (prev : json) (paths : list string) (salts : list json) (steps : list json) : bool :=
+  match paths, steps with
+  | _, [] => true                      (* the implementation stopped (after an error): nothing further to compare *)
+  | [], _ :: _ => false
+  | p :: ps, st :: sts =>
       let salt := match salts with s :: _ => s | [] => JNull end in
-      match build_disclosure E claims p salt with
-      | Ok (c, d) => JObj [("o", JStr "ok"); ("v", JArr [c; disc_json d])] :: unit_build_fold E c ps (tl salts)
-      | Err => [JObj [("o", JStr "err")]]
+      match build_disclosure E prev p salt with
+      | Ok (c, d) =>
+          obs_is "ok" st &&
+          match obs_val st with
+          | JArr [c_obs; d_obs] =>
+              json_eqb (sort_sd c) (sort_sd c_obs) && json_eqb (disc_json d) d_obs && unit_build_agrees E c_obs ps (tl salts) sts
+          | _ => false end
+      | Err => obs_is "err" st && (match sts with [] => true | _ => false end)
       end
   end.
 
@@ -122,12 +141,11 @@ Definition case_unit (input obs : json) : verdict :=
   else if String.eqb fn "dropkb" then cmp (obs_of_out JStr (drop_kb_m (jstr_or_empty (jget "s" input)))) "drop_kb"
   else if String.eqb fn "build" then
     let steps := jlist r in
-    let all_ok := forallb (obs_is "ok") steps in
-    let m := unit_build_fold (unit_env rb) (jget "claims" input) (jstrs (jget "paths" input)) (jlist (jget "salts" rb)) in
     if existsb (obs_is "panic") steps then VPropFail "build_disclosure panics"
-    else if all_ok then (if json_eqb (JArr steps) (JArr m) then VOk true else VMismatch "build_disclosure: the model does not reproduce the working copy or the disclosure")
-    else if json_eqb (class_list steps) (class_list m) then VOk true
-    else VMismatch ("build_disclosure: impl " ++ jstr_or_empty (last (jlist (class_list steps)) JNull) ++ " after " ++ show_nat (List.length steps) ++ " steps, model " ++ jstr_or_empty (last (jlist (class_list m)) JNull) ++ " after " ++ show_nat (List.length m))
+    else if unit_build_agrees (unit_env rb) (jget "claims" input) (jstrs (jget "paths" input)) (jlist (jget "salts" rb)) steps
+            && (Nat.eqb (List.length steps) (List.length (jstrs (jget "paths" input))) || existsb (obs_is "err") steps)
+    then VOk true
+    else VMismatch "build_disclosure: the model does not reproduce a step (working copy up to the order inside _sd lists, disclosure, or where the fold stops)"
   else if String.eqb fn "reserved" then
     cmp (if has_reserved (jbool (jget "top" input)) (jget "claims" input) then JObj [("o", JStr "err")] else JObj [("o", JStr "ok"); ("v", JNull)]) "reject_reserved_names"
   else if String.eqb fn "decoys" then
